@@ -42,8 +42,18 @@ def _collision_wallets(rng, tier):
                 yield "w_addr %s %s %s #%s" % (wo, sx(sp), rng.choice(KINDS), meta), "fp-collision-wallets-addr"
 
 
+def _bulk_cases(rng, tier):
+    from .c02 import neuter
+    from .c01 import rand_parent
+    for _ in range(1 if tier == "quick" else 20):
+        spec, k, chain, depth = rand_parent(rng)
+        for ar, a, b, st in common.bulk_interval_shapes(rng):
+            yield "gen_step %s %d %d %d %d -" % (neuter(spec, k), ar, a, b, st), "bulk-interval-shape"
+
+
 def cases(rng, tier):
     n = 10 if tier == "quick" else 400
+    yield from _bulk_cases(rng, tier)
     yield from _hist_cases(rng, tier)
     yield from _collision_wallets(rng, tier)
     # export nodes deep in the tree as well: the depth byte crosses 0x7f/0x80 and approaches 0xff
@@ -122,6 +132,8 @@ def oracle(line, out):
     tok, meta = _split(line)
     v = ok_val(out)
     op = tok[0]
+    if op == "gen_step":
+        return common.bulk_oracle(line.split(" #")[0], out)
     if op == "hist":
         from .c13 import oracle as o13
         m = o13(line, out)
